@@ -117,6 +117,9 @@ func (fv *FnVerifier) run() {
 	if fn.Signature.Recv() != nil {
 		off = 1
 	}
+	if len(fv.fc.Params) != len(fv.params)-off {
+		unsupported("contract header lists %d parameters, the function has %d: the contract no longer describes this function", len(fv.fc.Params), len(fv.params)-off)
+	}
 	for i, cp := range fv.fc.Params {
 		if off+i < len(fv.params) {
 			fv.names[cp.Name] = fv.params[off+i]
